@@ -262,8 +262,14 @@ _orig_worker = sd._worker
 
 
 def _worker(task):
+    flag = getattr(sd, '__abort_flag', None)
+    try:
+        saw_abort = bool(flag and flag.is_set())
+    except Exception:  # noqa
+        saw_abort = False
     r = _orig_worker(task)
-    log('ddmin_result', id=r.task_id, success=r.success, tests=r.tests, cand=dig(r.exprs) if r.success else None)
+    log('ddmin_result', id=r.task_id, success=r.success, tests=r.tests, cand=dig(r.exprs) if r.success else None,
+        aborted=(saw_abort and not r.success and r.tests == 0))
     return r
 
 
